@@ -3,7 +3,7 @@
 #include "common.hpp"
 
 using namespace xsim;
-namespace {
+namespace hx_litmus {
 
 enum { RLX = 0, RA = 1, SC = 2 };
 static std::memory_order st(int m) { return m == RLX ? std::memory_order_relaxed : m == RA ? std::memory_order_release : std::memory_order_seq_cst; }
